@@ -188,7 +188,11 @@ func c19Worker(args []string) int {
 			case sv[i] != nil && iv[i] == nil:
 				viol = &Violation{Class: "cross-talk", Msg: fmt.Sprintf("world %d of %d: clean when interleaved, but alone after the other worlds ran in the same process: %s", i, len(trs), sv[i].Error())}
 			case sv[i] != nil && iv[i] != nil:
-				sum.Foreign[sv[i].Class]++
+				if contains(Attribute(trs[i], sv[i]), "C19") {
+					viol = &Violation{Class: sv[i].Class, Msg: fmt.Sprintf("world %d of %d: %s", i, len(trs), sv[i].Error())}
+				} else {
+					sum.Foreign[sv[i].Class]++
+				}
 			case solo[i] != inter[i]:
 				viol = &Violation{Class: "cross-talk", Msg: fmt.Sprintf("world %d of %d: observable log differs between running alone (%x) and interleaved (%x)", i, len(trs), solo[i], inter[i])}
 			}
@@ -538,7 +542,7 @@ func ReplayC19File(path string, quiet bool) int {
 	solo, sv := runSolo(f.Traces)
 	inter, iv, _ := runInterleaved(f.Traces, Mix(f.Seed, uint64(f.K)))
 	for i := range f.Traces {
-		bad := (sv[i] == nil) != (iv[i] == nil) || (sv[i] == nil && solo[i] != inter[i])
+		bad := (sv[i] == nil) != (iv[i] == nil) || (sv[i] == nil && solo[i] != inter[i]) || (sv[i] != nil && contains(Attribute(f.Traces[i], sv[i]), "C19"))
 		if !quiet {
 			fmt.Printf("world %d: solo %x (%v) interleaved %x (%v)\n", i, solo[i], sv[i], inter[i], iv[i])
 		}
@@ -552,6 +556,4 @@ func ReplayC19File(path string, quiet bool) int {
 }
 
 func specialC14(args []string) int          { fmt.Fprintln(os.Stderr, "C14 not built"); return 2 }
-func specialC18(args []string) int          { fmt.Fprintln(os.Stderr, "C18 not built"); return 2 }
 func replayC14(path string, quiet bool) int { return 2 }
-func replayC18(path string, quiet bool) int { return 2 }
